@@ -6,6 +6,7 @@ hidden roots are pairwise different and the identity roots of the visible nodes 
 -/
 import SimplicityModel.Prog.ConvertProps
 import SimplicityModel.Prog.WalkSim
+set_option linter.unusedSimpArgs false
 namespace Prog
 open Wire
 variable {J : Type}
